@@ -421,5 +421,149 @@ func main() {
 	}
 	fmt.Println("]")
 	fmt.Println()
+	// ---- writers of the role graph (C04): for the methods of Enforcer and DistributedEnforcer (all
+	// non-test files of the package), the calls that change what a memoised g() would answer — a
+	// mutating method of a role manager called on any value, an assignment into rmMap / condRmMap —
+	// together with the dropping of the compiled matchers (a call of invalidateMatcherMap or an
+	// assignment to matcherMap) and the calls on the receiver.  Listed: every writer, and the callers of
+	// unexported writers that do not drop the compiled matchers themselves.
+	rmMut := map[string]bool{"AddLink": true, "DeleteLink": true, "Clear": true, "AddMatchingFunc": true, "AddDomainMatchingFunc": true,
+		"BuildRoleLinks": true, "BuildIncrementalRoleLinks": true, "BuildConditionalRoleLinks": true, "BuildIncrementalConditionalRoleLinks": true}
+	unambiguous := map[string]bool{"AddLink": true, "DeleteLink": true, "AddMatchingFunc": true, "AddDomainMatchingFunc": true}
+	var gks []sk
+	var others []string
+	for fi, af := range parsed {
+		for _, d := range af.Decls {
+			fd, ok := d.(*ast.FuncDecl)
+			if !ok || fd.Body == nil {
+				continue
+			}
+			rt := recvOf(fd)
+			recv := ""
+			if fd.Recv != nil && len(fd.Recv.List[0].Names) > 0 {
+				recv = fd.Recv.List[0].Names[0].Name
+			}
+			isRecv := func(e ast.Expr) bool {
+				id, ok := e.(*ast.Ident)
+				return ok && recv != "" && id.Name == recv
+			}
+			var calls []string
+			ast.Inspect(fd.Body, func(x ast.Node) bool {
+				switch n := x.(type) {
+				case *ast.AssignStmt:
+					for _, l := range n.Lhs {
+						target := l
+						if ix, ok := l.(*ast.IndexExpr); ok {
+							target = ix.X
+						}
+						if sel, ok := target.(*ast.SelectorExpr); ok {
+							switch sel.Sel.Name {
+							case "rmMap", "condRmMap":
+								calls = append(calls, "assign:"+sel.Sel.Name)
+							case "matcherMap":
+								calls = append(calls, "inval:matcherMap")
+							}
+						}
+					}
+				case *ast.CallExpr:
+					sel, ok := n.Fun.(*ast.SelectorExpr)
+					if !ok {
+						return true
+					}
+					m := sel.Sel.Name
+					onRecv := isRecv(sel.X)
+					if inner, ok := sel.X.(*ast.SelectorExpr); ok && isRecv(inner.X) && (inner.Sel.Name == "Enforcer" || inner.Sel.Name == "SyncedEnforcer") {
+						onRecv = true
+					}
+					switch {
+					case onRecv && m == "invalidateMatcherMap":
+						calls = append(calls, "inval:call")
+					case onRecv:
+						calls = append(calls, "self:"+m)
+					case rmMut[m]:
+						calls = append(calls, "rm:"+m)
+					}
+				}
+				return true
+			})
+			if rt == "Enforcer" || rt == "DistributedEnforcer" {
+				if ast.IsExported(fd.Name.Name) {
+					calls = append([]string{"exported:"}, calls...)
+				}
+				calls = append([]string{"name:" + fd.Name.Name}, calls...)
+				gks = append(gks, sk{rt + "." + fd.Name.Name, calls})
+				continue
+			}
+			// any other function of the package: it must not write the role graph at all ("Clear" is also a
+			// method of the decision caches, so only the unambiguous names count here)
+			for _, c := range calls {
+				if strings.HasPrefix(c, "assign:") || (strings.HasPrefix(c, "rm:") && unambiguous[strings.TrimPrefix(c, "rm:")]) {
+					others = append(others, names[fi]+":"+rt+"."+fd.Name.Name+":"+c)
+				}
+			}
+		}
+	}
+	has := func(k sk, prefix string) bool {
+		for _, c := range k.calls {
+			if strings.HasPrefix(c, prefix) {
+				return true
+			}
+		}
+		return false
+	}
+	keep := map[string]bool{}
+	for _, k := range gks {
+		if has(k, "rm:") || has(k, "assign:") {
+			keep[k.name] = true
+		}
+	}
+	for changed := true; changed; {
+		changed = false
+		for _, w := range gks {
+			if !keep[w.name] || has(w, "inval:") || has(w, "exported:") {
+				continue
+			}
+			m := w.name[strings.Index(w.name, ".")+1:]
+			for _, k := range gks {
+				if !keep[k.name] && has(k, "self:"+m) {
+					keep[k.name] = true
+					changed = true
+				}
+			}
+		}
+	}
+	var kept []sk
+	for _, k := range gks {
+		if keep[k.name] {
+			kept = append(kept, k)
+		}
+	}
+	sort.Slice(kept, func(i, j int) bool { return kept[i].name < kept[j].name })
+	fmt.Println("/-- per method of Enforcer / DistributedEnforcer that writes the role graph (and the callers of unexported writers): (name, M) its own method name, (exported, _), (rm, M) a mutating role-manager method, (assign, rmMap | condRmMap), (inval, _) the compiled matchers are dropped, (self, M) a call on the receiver, in source order -/")
+	fmt.Println("def graphCalls : List (String × List (String × String)) := [")
+	for i, k := range kept {
+		q := make([]string, len(k.calls))
+		for j, c := range k.calls {
+			kv := strings.SplitN(c, ":", 2)
+			q[j] = fmt.Sprintf("(%q, %q)", kv[0], kv[1])
+		}
+		sep := ","
+		if i == len(kept)-1 {
+			sep = ""
+		}
+		fmt.Printf("  (%q, [%s])%s\n", k.name, strings.Join(q, ", "), sep)
+	}
+	fmt.Println("]")
+	fmt.Println()
+	fmt.Println("/-- functions other than methods of Enforcer / DistributedEnforcer that write the role graph (file:function:call) -/")
+	fmt.Printf("def otherGraphWriters : List String := [")
+	for i, o := range others {
+		if i > 0 {
+			fmt.Printf(", ")
+		}
+		fmt.Printf("%q", o)
+	}
+	fmt.Println("]")
+	fmt.Println()
 	fmt.Println("end Casbin.Facts")
 }
